@@ -196,7 +196,8 @@ Eval(e, env) ==
          CHOOSE res \in {
          IF i.s # "ok" THEN i
          ELSE IF i.v >= 0 /\ i.v < size
-              THEN (IF cell.al \in {"null", "freed"} THEN UB
+              \* (a string allocated on demand has no buffer until it is written: the guarded read yields 0)
+              THEN (IF cell.al \in {"null", "freed"} THEN (IF env.cfg.unsafe THEN UB ELSE Ok(0, "int"))
                     ELSE Ok(ByteAsChar(cell.buf[i.v + 1], env.cfg.u8 \/ D.type = "raw"), "int"))
               ELSE (IF env.cfg.unsafe THEN UB ELSE Ok(0, "int"))
          : i \in {Eval(e.i, env)}} : TRUE
@@ -291,7 +292,7 @@ EvalW(e, env) ==
          CHOOSE res \in {
          IF i.s # "ok" THEN i
          ELSE IF ~i.w.neg /\ WFitsInt(i.w) /\ WToInt(i.w) < size
-              THEN (IF cell.al \in {"null", "freed"} THEN UBW
+              THEN (IF cell.al \in {"null", "freed"} THEN (IF env.cfg.unsafe THEN UBW ELSE OkW(WZero, "int"))
                     ELSE OkW(WFromInt(ByteAsChar(cell.buf[WToInt(i.w) + 1], env.cfg.u8 \/ D.type = "raw")), "int"))
               ELSE (IF env.cfg.unsafe THEN UBW ELSE OkW(WZero, "int"))
          : i \in {EvalW(e.i, env)}} : TRUE
